@@ -115,6 +115,29 @@ def generate(rng: random.Random, tier: str):
                    "ids": ids, "edges": edges, "axes": [], "sphere": None, "ellipsoid": None, "track": None}
         else:
             yield {"kind": k, "dt": dt, "ids": ids, "edges": edges}
+    # larger, sparse arrays: numpy switches algorithms (sort / table / loop paths of isin, unique) with size and value range
+    for _ in range(160 if tier == "quick" else 2000):
+        dt = rng.choice(INT_DTYPES)
+        info = np.iinfo(dt)
+        n = rng.randint(12, 40)
+        sparse = rng.random() < 0.7 and info.max > 1000
+        def rid():
+            if sparse:
+                return rng.choice([info.min, info.max, rng.randint(info.min, info.max), rng.randint(info.min, info.max)])
+            return rng.randint(max(info.min, -20), min(info.max, 60))
+        ids = list({rid() for _ in range(n)}) if rng.random() < 0.8 else [rid() for _ in range(n)]
+        rng.shuffle(ids)
+        dangling = [rid() for _ in range(rng.randint(0, 3))]
+        pool = ids + dangling * 3
+        edges = [[rng.choice(pool), rng.choice(pool)] for _ in range(rng.randint(8, 40))]
+        if rng.random() < 0.3 and edges:
+            edges += [list(rng.choice(edges)) for _ in range(3)] + [list(reversed(rng.choice(edges)))]
+        k = rng.choice(["unique", "nodes_for_edges", "nodes_for_edges", "self", "repeated", "data"])
+        if k == "data":
+            yield {"kind": "data", "cfg": [True, False, False, False, False], "directed": rng.random() < 0.5, "dt": dt,
+                   "ids": ids, "edges": edges, "axes": [], "sphere": None, "ellipsoid": None, "track": None}
+        else:
+            yield {"kind": k, "dt": dt, "ids": ids, "edges": edges}
     # shapes + dispatch
     for _ in range(500 if tier == "quick" else 5000):
         n = rng.randint(0, 4)
